@@ -233,6 +233,15 @@ theorem lock_held_across_send_can_deadlock :
       final s = false ∧ ∀ a, LockNet.step true 1 s a = none :=
   LockNet.lock_held_across_send_can_deadlock
 
+/-- (2c') **The shape of that deadlock for every queue capacity and every number of workers**: the index stage waits for
+`indexer.write()`, the writer queue is full, a worker is inside the blocking `Actor::send`, some worker holds the READ guard and
+all workers are outside `add_raw`, inside `send` or waiting for `raw_packer.write()` — then nothing can move, in either variant of
+the code.  (By (2a) the code as it is never gets there: its guard holders are always in `chk`.) -/
+theorem kept_guard_stuck_state (keep : Bool) (cap : Nat) (s : LSt) (hidx : s.idx = true) (hq : cap ≤ s.queue)
+    (hpc : ∀ w ∈ s.ws, w.pc = PC.out ∨ w.pc = PC.send ∨ w.pc = PC.wantPk) (hsend : ∃ w ∈ s.ws, w.pc = PC.send)
+    (hrd : ∃ w ∈ s.ws, w.rd = true) : ∀ a, LockNet.step keep cap s a = none :=
+  stuck_of_blocked_readers hidx hq hpc hsend hrd
+
 end AddRawLocks
 
 /-- (3) **No unindexed blob / pack.**  For every schedule of packer, file-writer and indexer events (any
